@@ -85,3 +85,23 @@ REG.add_task(KeyHashWriters('_key_hash-writers', ('C11',), 'tlslite/utils/rsakey
                             doc='whole-repository scan: RSAKey._key_hash (seed of the synthetic message) is assigned only by '
                                 'RSAKey.decrypt (derived there from the current d), so decrypt is a function of (key, ciphertext) '
                                 'for every way a key object is built'))
+
+
+# --- tasks of other modules that also carry a second property ---------------------------------------------------
+# (a task is run for every property in its `prop` tuple; the owning modules were written per area, these are the
+#  cross-property links found when looking at which seeded changes were missed)
+def _also(task_key_substr, module, *props):
+    import importlib
+    importlib.import_module(module)
+    for k in REG.task_keys():
+        if task_key_substr in k:
+            t = REG.task(k)
+            t.prop = tuple(t.prop) + tuple(p for p in props if p not in t.prop)
+
+
+# C10/C11: "concurrent private-key operations on one RSA key all return the mathematically correct result" is what makes
+# RSA decrypt/sign a function of (key, input): the blinding pair must be read and advanced inside one critical section
+_also('lock-discipline[Python_RSAKey._rawPrivateKeyOp]', 'contracts.sessioncache', 'C10', 'C11')
+# C01: "no record put on the wire ever carries more plaintext than the limit in force": the server's send limit from the
+# client's record_size_limit extension (TLS 1.3: minus the content-type byte)
+_also('_serverGetClientHello/record-size-limit', 'contracts.m2_server', 'C01')
